@@ -454,6 +454,31 @@ def run_check(tier, seed):
         hints = [[rate == z3.ToReal(hk), hk >= 134217, hk <= 4294967], [rate == z3.ToReal(hk), hk >= 1]] if is_float else None
         pr.prove_cegar('path %d to run(): published rate = 1000 x option as integers (1000 when omitted), never wrapped' % i, pcc, val == want, confirm, lambda m: [],
                        **({'hints': hints} if hints else {}))
+    # standing native runs of the real release binary: the default, small and large representable rates, the largest one, the first
+    # that does not fit and larger ones: published = 1000 x rate exactly, or no publication at all (start-up refused)
+    if not is_float and not ck.violations:
+        sweep = []
+        for r in (None, 1, 1000, 4294967, 4294968, 5000000, 4294967295):
+            nat = native_drift(r)
+            exp = 1000 if r is None else r * 1000
+            pub = nat.get('published_max_drift_ppb')
+            sweep.append({'rate': r, 'published': pub, 'exit_before_publication': nat.get('exit_status_before_publication')})
+            ck.cov['evaluations'] += 1
+            if nat.get('error'):
+                continue
+            if pub is not None and pub != exp:
+                confirmed[0] += 1
+                ck.violation('drift-wrong-value', 'the real release binary started with %s published max_drift_ppb = %d, expected %s' % (
+                    '--max-drift-rate %s' % r if r is not None else 'no --max-drift-rate', pub, ('%d (not representable in 32 bits: start-up must be refused)' % exp) if exp >= U32 else exp),
+                    {'cmd': 'clockbound --max-drift-rate %s' % r, 'native': nat})
+                break
+            if pub is None and exp < U32 and nat.get('exit_status_before_publication') not in (None, 0):
+                confirmed[0] += 1
+                ck.violation('drift-refused-representable', 'the real release binary refused to start with a representable rate %s: %s' % (r, nat), {'native': nat})
+                break
+        ck.cov['native_rate_sweep'] = sweep
+        if ck.violations:
+            ck.inconclusive = [i for i in ck.inconclusive if not i.startswith('the value passed to run() is not precise')]
     # every representable rate does reach run()
     reach = z3.Or([z3.And(pc) if pc else z3.BoolVal(True) for pc, v in hits]) if hits else z3.BoolVal(False)
     pr.prove_cegar('every representable rate (and the default) reaches thread_manager::run on some path (refusals for other reasons, e.g. PHC options, are separate paths)',
